@@ -1132,18 +1132,24 @@ where
         // Account for underflow towards the right.
         // At least two pages are needed in order to be able to account for that underflow.
         if number_of_cells_per_page.len() >= 2 {
-            // The divider cell will be the first cell of the last page.
-            let mut divider_cell = cells.len() - number_of_cells_per_page.last().unwrap() - 1;
-
             // Iterate backwards, moving cells towards the right.
+            // `cells_before` counts the cells stored in the pages before page `i`: the last of
+            // them is the divider cell, the one that moves into page `i` when it underflows.
+            let mut cells_before = cells.len();
             for i in (1..=(total_size_in_each_page.len() - 1)).rev() {
-                while total_size_in_each_page[i] < BtreePage::underflow_threshold(page_size) {
+                cells_before -= number_of_cells_per_page[i];
+
+                while total_size_in_each_page[i] < BtreePage::underflow_threshold(page_size)
+                    && number_of_cells_per_page[i - 1] > 1
+                {
+                    let moved = cells[cells_before - 1].storage_size();
+
                     number_of_cells_per_page[i] += 1;
-                    total_size_in_each_page[i] += &cells[divider_cell].storage_size();
+                    total_size_in_each_page[i] += moved;
 
                     number_of_cells_per_page[i - 1] -= 1;
-                    total_size_in_each_page[i - 1] -= &cells[divider_cell - 1].storage_size();
-                    divider_cell -= 1;
+                    total_size_in_each_page[i - 1] -= moved;
+                    cells_before -= 1;
                 }
             }
 
